@@ -23,9 +23,13 @@ Order == SubSeq(AllDefs, 1, NDefs)
 Defs == {Order[i] : i \in 1..NDefs}
 None == "-"
 Targets == Defs \cup {None}
-EdgesOf(p, q) == (IF p = None THEN <<>> ELSE <<[to |-> p, via |-> "prop", name |-> "p"]>>)
-                 \o (IF q = None THEN <<>> ELSE <<[to |-> q, via |-> "items", name |-> "q"]>>)
-Graphs == {[d \in Defs |-> EdgesOf(c[d][1], c[d][2])] : c \in [Defs -> Targets \X Targets]}
+\* with two definitions a third optional property r wraps its reference in an allOf: {"allOf": [{"$ref": ..}]}, the usual
+\* way of decorating a reference
+EdgesOf(p, q, r) == (IF p = None THEN <<>> ELSE <<[to |-> p, via |-> "prop", name |-> "p"]>>)
+                    \o (IF q = None THEN <<>> ELSE <<[to |-> q, via |-> "items", name |-> "q"]>>)
+                    \o (IF r = None THEN <<>> ELSE <<[to |-> r, via |-> "allof", name |-> "r"]>>)
+RTargets == IF NDefs = 2 THEN Targets ELSE {None}
+Graphs == {[d \in Defs |-> EdgesOf(c[d][1], c[d][2], c[d][3])] : c \in [Defs -> Targets \X Targets \X RTargets]}
 
 VARIABLES Edge, todo, stack, declared, emitted, inScope, steps
 INSTANCE RefGraph
@@ -37,12 +41,13 @@ DefSchema(d) ==
   ("properties" :> [i \in DOMAIN Edge[d] |->
                        [k |-> Edge[d][i].name,
                         s |-> IF Edge[d][i].via = "prop" THEN RefTo(Edge[d][i].to)
+                              ELSE IF Edge[d][i].via = "allof" THEN [allOf |-> <<RefTo(Edge[d][i].to)>>]
                               ELSE [type |-> <<"array">>, items |-> RefTo(Edge[d][i].to)]]]
                    \o <<[k |-> "v", s |-> Int1]>>)
 
 Depth == IF NDefs = 2 THEN (IF Tier = "thorough" THEN 4 ELSE 3) ELSE (IF Tier = "thorough" THEN 3 ELSE 2)
 LeafDocs == {JObj(<<>>), JObj(<<KV("v", JNum(4))>>), JObj(<<KV("v", JNum(0))>>)}
-WrapE(e, sub) == IF e.via = "prop" THEN JObj(<<KV(e.name, sub)>>) ELSE JObj(<<KV(e.name, JArr(<<JObj(<<>>), sub>>))>>)
+WrapE(e, sub) == IF e.via \in {"prop", "allof"} THEN JObj(<<KV(e.name, sub)>>) ELSE JObj(<<KV(e.name, JArr(<<JObj(<<>>), sub>>))>>)
 RECURSIVE DocsAt(_, _)
 DocsAt(d, k) ==
   LeafDocs \cup (IF k = 0 THEN {}
@@ -53,12 +58,16 @@ ReachFrom(S) == LET T == S \cup UNION {{Edge[d][i].to : i \in DOMAIN Edge[d]} : 
 \* a definition on a cycle that is reachable from A
 OnCycle(d) == \E i \in DOMAIN Edge[d] : d \in ReachFrom({Edge[d][i].to})
 Cyclic == \E d \in ReachFrom({"A"}) : OnCycle(d)
+\* an allOf-wrapped reference that lies on a cycle (deviation "RecursiveAllOfUnsupported": the generator merges the
+\* branch by value and gives up); generated: every definition of the document / the documents reachable from A
+AllOfCycle(gen) == \E d \in gen : \E i \in DOMAIN Edge[d] : Edge[d][i].via = "allof" /\ d \in ReachFrom({Edge[d][i].to})
 
 GraphUnit ==
   [prop |-> "C10", kind |-> "graph", ndefs |-> NDefs,
    schema |-> ("type" :> <<"object">>) @@ ("properties" :> <<[k |-> "a", s |-> RefTo("A")]>>),
    defs |-> [i \in 1..NDefs |-> [k |-> Order[i], s |-> DefSchema(Order[i])]],
    gonames |-> [i \in 1..NDefs |-> [k |-> Order[i], reach |-> TRUE]],     \* every definition of a document is generated
+   allofcycle |-> AllOfCycle(Defs), nobuild |-> IF AllOfCycle(Defs) THEN <<"RecursiveAllOfUnsupported">> ELSE <<>>,
    edges |-> [i \in 1..NDefs |-> [k |-> Order[i], e |-> Edge[Order[i]]]],
    cyclic |-> Cyclic,
    docs |-> SetToSeq({JObj(<<KV("a", sub)>>) : sub \in DocsAt("A", Depth)})]
@@ -72,6 +81,7 @@ FileSchema(d) ==
   ("properties" :> [i \in DOMAIN Edge[d] |->
                        [k |-> Edge[d][i].name,
                         s |-> IF Edge[d][i].via = "prop" THEN PathTo(Edge[d][i].to)
+                              ELSE IF Edge[d][i].via = "allof" THEN [allOf |-> <<PathTo(Edge[d][i].to)>>]
                               ELSE [type |-> <<"array">>, items |-> PathTo(Edge[d][i].to)]]]
                    \o <<[k |-> "v", s |-> Int1]>>)
 \* only the documents reachable from A exist for the generator; the others are never loaded
@@ -83,6 +93,7 @@ GraphUnitFiles ==
    envonly |-> TRUE,
    files |-> [i \in 1..NDefs |-> [path |-> <<"g", Lower(Order[i]) \o ".json">>, name |-> Order[i], s |-> FileSchema(Order[i]), defs |-> <<>>, yaml |-> FALSE]],
    gonames |-> [i \in 1..NDefs |-> [k |-> Order[i] \o "Json", reach |-> Order[i] \in ReachFrom({"A"})]],
+   allofcycle |-> AllOfCycle(ReachFrom({"A"})), nobuild |-> IF AllOfCycle(ReachFrom({"A"})) THEN <<"RecursiveAllOfUnsupported">> ELSE <<>>,
    edges |-> [i \in 1..NDefs |-> [k |-> Order[i], e |-> Edge[Order[i]]]],
    cyclic |-> Cyclic,
    docs |-> SetToSeq({JObj(<<KV("a", sub)>>) : sub \in DocsAt("A", Depth)})]
@@ -96,6 +107,7 @@ GraphUnitRooted ==
    defs |-> [i \in 1..NDefs |-> [k |-> Order[i], s |-> FileSchema(Order[i])]], envonly |-> TRUE,
    files |-> [i \in 1..(NDefs - 1) |-> [path |-> <<"g", Lower(Order[i + 1]) \o ".json">>, name |-> Order[i + 1], s |-> FileSchema(Order[i + 1]), defs |-> <<>>, yaml |-> FALSE]],
    gonames |-> [i \in 1..NDefs |-> [k |-> Order[i] \o "Json", reach |-> Order[i] \in ReachFrom({"A"})]],
+   allofcycle |-> AllOfCycle(ReachFrom({"A"})), nobuild |-> IF AllOfCycle(ReachFrom({"A"})) THEN <<"RecursiveAllOfUnsupported">> ELSE <<>>,
    edges |-> [i \in 1..NDefs |-> [k |-> Order[i], e |-> Edge[Order[i]]]],
    cyclic |-> Cyclic,
    docs |-> SetToSeq(DocsAt("A", Depth))]
